@@ -1948,6 +1948,38 @@ func (fc *fctx) doCall(call *ast.CallExpr, st *lfState, deferred bool) []*lfStat
 		}
 	}
 	if fn == nil {
+		// a call through a function VALUE that is neither a literal bound in this function nor one of
+		// its parameters (those are followed): code the analysis cannot see runs here
+		if tv, ok := fc.info.Types[call.Fun]; ok && !tv.IsType() && !tv.IsBuiltin() {
+			if _, isSig := tv.Type.Underlying().(*types.Signature); isSig {
+				known := false
+				switch x := ast.Unparen(call.Fun).(type) {
+				case *ast.FuncLit:
+					known = true
+				case *ast.Ident:
+					if v, ok := fc.info.Uses[x].(*types.Var); ok {
+						if fc.litVars[v] != nil {
+							known = true
+						}
+						for _, pn := range fc.sum.Params {
+							if pn == x.Name {
+								known = true
+							}
+						}
+					}
+				}
+				// frozen exemption: virtual.StringMatcher values are pure string predicates by contract
+				// (regexp.MatchString-shaped); they cannot call back into the file system
+				if named, ok := tv.Type.(*types.Named); ok && named.Obj().Name() == "StringMatcher" {
+					known = true
+				}
+				if !known {
+					for _, hk := range st.heldKeys() {
+						fc.diag("callback", hk, call.Pos(), fmt.Sprintf("call through the function value %s while holding %s: the callee is unknown code that may re-enter and take the same lock", types.ExprString(call.Fun), hk), nil)
+					}
+				}
+			}
+		}
 		return []*lfState{st}
 	}
 	// frozen extra blocking callees
